@@ -11,7 +11,7 @@ dst = f'/verif/seeded/{sid}'
 def sh(cmd, **kw):
     return subprocess.run(cmd, shell=True, capture_output=True, text=True, **kw)
 meta = {'id': sid, 'breaks_property': pid, 'ran': []}
-RERUN = not os.path.isdir(wt) and os.path.exists(f'{dst}/meta.json')
+RERUN = (not os.path.isdir(wt) or os.environ.get('SEED_RERUN')) and os.path.exists(f'{dst}/meta.json')
 if RERUN:
     # the scratch worktree is gone: the change was confirmed earlier, only re-run the checks against it
     meta = json.load(open(f'{dst}/meta.json'))
